@@ -397,6 +397,81 @@ func steps(thorough bool) []step {
 		}
 		return ""
 	}})
+	// failing forms of every call kind: whatever the error, nobody's configuration may move
+	perCallR := func() *reader.Options {
+		o := &reader.Options{UnserializeOptions: &native.UnserializeOptions{}, RetrieveOptions: &storage.RetrieveOptions{BackendOptions: "per-call"}}
+		o.SetFormatOptions("k", "per-call")
+		return o
+	}
+	missing := func() string {
+		return filepath.Join(os.Getenv("MCVERIF_SCRATCH"), fmt.Sprintf("c18-%d-no-such-dir", os.Getpid()), "no-such-file")
+	}
+	out = append(out, step{"last-reader.ParseFileWithOptions(per-call options) on a missing file [fails]", func(w *world) string {
+		if len(w.rs) == 0 {
+			return ""
+		}
+		if _, err := w.rs[len(w.rs)-1].r.ParseFileWithOptions(missing(), perCallR()); err == nil {
+			return "parsing a missing file succeeded"
+		}
+		return ""
+	}})
+	out = append(out, step{"last-reader.ParseFileWithOptions(first-reader.Options) on an undetectable file [fails]", func(w *world) string {
+		if len(w.rs) < 2 {
+			return ""
+		}
+		first, last := w.rs[0], w.rs[len(w.rs)-1]
+		f := filepath.Join(os.Getenv("MCVERIF_SCRATCH"), fmt.Sprintf("c18-%d.bad", os.Getpid()))
+		_ = os.WriteFile(f, []byte("this is not an SBOM\n"), 0o644)
+		defer os.Remove(f)
+		if _, err := last.r.ParseFileWithOptions(f, first.r.Options); err == nil {
+			return "parsing an undetectable file succeeded"
+		}
+		return ""
+	}})
+	out = append(out, step{"last-reader.ParseFile on a missing file [fails]", func(w *world) string {
+		if len(w.rs) == 0 {
+			return ""
+		}
+		if _, err := w.rs[len(w.rs)-1].r.ParseFile(missing()); err == nil {
+			return "parsing a missing file succeeded"
+		}
+		return ""
+	}})
+	out = append(out, step{"last-reader.ParseStreamWithOptions(per-call options, unregistered format) [fails]", func(w *world) string {
+		if len(w.rs) == 0 {
+			return ""
+		}
+		o := perCallR()
+		o.Format = formats.Format("application/x-nobody-registered-this")
+		if _, err := w.rs[len(w.rs)-1].r.ParseStreamWithOptions(bytes.NewReader([]byte("{}")), o); err == nil {
+			return "parsing with an unregistered format succeeded"
+		}
+		return ""
+	}})
+	out = append(out, step{"last-writer.WriteFileWithOptions(per-call options) into a missing directory [fails]", func(w *world) string {
+		if len(w.ws) == 0 {
+			return ""
+		}
+		o := &writer.Options{Format: formats.CDX14JSON, RenderOptions: &native.RenderOptions{Indent: 9}, SerializeOptions: &native.SerializeOptions{}, StoreOptions: &storage.StoreOptions{NoClobber: true}}
+		o.SetFormatOptions("k", "per-call")
+		if err := w.ws[len(w.ws)-1].w.WriteFileWithOptions(testDoc(), missing(), o); err == nil {
+			os.Remove(missing())
+			return "writing into a missing directory succeeded"
+		}
+		return ""
+	}})
+	out = append(out, step{"last-writer.WriteStreamWithOptions(per-call options, unregistered format) [fails]", func(w *world) string {
+		if len(w.ws) == 0 {
+			return ""
+		}
+		var buf bytes.Buffer
+		o := &writer.Options{Format: formats.Format("application/x-nobody-registered-this"), RenderOptions: &native.RenderOptions{Indent: 9}, SerializeOptions: &native.SerializeOptions{}}
+		o.SetFormatOptions("k", "per-call")
+		if err := w.ws[len(w.ws)-1].w.WriteStreamWithOptions(testDoc(), nopCloser{&buf}, o); err == nil {
+			return "writing with an unregistered format succeeded"
+		}
+		return ""
+	}})
 	out = append(out, step{"last-reader.Retrieve", func(w *world) string {
 		if len(w.rs) == 0 {
 			return ""
